@@ -50,12 +50,48 @@ fn zones(surface: bool, odd: bool, lat: f64) -> (f64, f64) {
 }
 
 fn in_range(r: &mut Report, rng: &mut Rng, surface: bool, st: &mut Stats) {
+    // the reports of a track are decoded back to back, nothing else in between (as for one aircraft heard alone)
+    loop {
+        in_range_one(r, rng, surface, st);
+        if st.track[surface as usize].is_none() {
+            break;
+        }
+    }
+}
+
+fn in_range_one(r: &mut Report, rng: &mut Rng, surface: bool, st: &mut Stats) {
     let mut lat = if rng.chance(0.7) { rng.uni(-1.0, 1.0).asin().to_degrees() } else { rng.uni(-90.0, 90.0) };
     let mut lon = rng.uni(-180.0, 180.0);
-    let odd = rng.chance(0.5);
+    let mut odd = rng.chance(0.5);
+    // Consecutive decodes are not independent draws in real life: an aircraft moves a few metres between two reports.
+    // One case in ten continues a *track*: 6-24 consecutive truths 3-60 m apart, started 50-400 m before an NL transition
+    // latitude (or a latitude-zone edge) and flown across it, every report judged like any other.
+    let k = surface as usize;
+    if st.track[k].is_none() && rng.chance(0.008) {
+        let dlat_zone = if surface { 1.5 } else { 6.0 };
+        let target = match rng.below(3) {
+            0 => rng.range(-14, 14) as f64 * dlat_zone,
+            _ => *rng.pick(&st.tr) * if rng.chance(0.5) { 1.0 } else { -1.0 },
+        };
+        let dir = if rng.chance(0.5) { 1.0 } else { -1.0 };
+        let step_m = rng.uni(3.0, 60.0);
+        let before_m = rng.uni(50.0, 400.0);
+        let start = (target - dir * before_m / 111_195.0).clamp(-89.9, 89.9);
+        st.track[k] = Some((start, rng.uni(-180.0, 180.0), dir * step_m / 111_195.0, rng.uni(-1.0, 1.0) * step_m / 111_195.0, rng.range(6, 24) as u32));
+    }
+    let mut on_track = false;
+    if let Some((tlat, tlon, dla, dlo, left)) = st.track[k] {
+        lat = tlat;
+        lon = tlon;
+        on_track = true;
+        odd = if rng.chance(0.8) { left % 2 == 0 } else { rng.chance(0.5) };
+        let nlat = (tlat + dla).clamp(-89.95, 89.95);
+        st.track[k] = if left > 1 { Some((nlat, geo::wrap180(tlon + dlo), dla, dlo, left - 1)) } else { None };
+        r.class("in-range:consecutive-reports-of-a-track-across-a-transition");
+    }
     // one truth in 12 sits on the CPR lattice itself: a zone corner (both transmitted counts 0), a zone edge in one
     // coordinate, or the last bin before an edge (count 2^17 - 1): perfectly valid positions with "empty-looking" fields
-    if rng.chance(1.0 / 12.0) {
+    if !on_track && rng.chance(1.0 / 12.0) {
         let span = if surface { 90.0 } else { 360.0 };
         let dlat = span / (60.0 - odd as u32 as f64);
         let bin = dlat / 131072.0;
@@ -81,7 +117,7 @@ fn in_range(r: &mut Report, rng: &mut Rng, surface: bool, st: &mut Stats) {
     };
     // one case in 16 starts from the *reference*: a receiver configured with "round" coordinates (exactly 0 or -0 in one
     // or both coordinates, whole degrees, a zone corner, the antimeridian, a pole) and an aircraft somewhere in range of it
-    let special = rng.chance(1.0 / 16.0);
+    let special = !on_track && rng.chance(1.0 / 16.0);
     let (rlat, rlon) = if special {
         let span = if surface { 90.0 } else { 360.0 };
         let dl = span / (60.0 - odd as u32 as f64);
@@ -140,7 +176,13 @@ fn in_range(r: &mut Report, rng: &mut Rng, surface: bool, st: &mut Stats) {
         return;
     }
     r.evaluations += 1;
-    let rp = json!({"kind":"in-range","surface":surface,"odd":odd,"truth":[lat,lon],"reference":[rlat,rlon],"cpr":[e.yz,e.xz]});
+    let mut rp = json!({"kind":"in-range","surface":surface,"odd":odd,"truth":[lat,lon],"reference":[rlat,rlon],"cpr":[e.yz,e.xz]});
+    if on_track {
+        if let Some((pyz, pxz, podd, prlat, prlon)) = st.prev[k] {
+            rp["previous"] = json!({"cpr": [pyz, pxz], "odd": podd, "reference": [prlat, prlon]});
+        }
+    }
+    st.prev[k] = if on_track { Some((e.yz, e.xz, odd, rlat, rlon)) } else { None };
     let fam = if surface { "surface" } else { "airborne" };
     match decode(surface, e.yz, e.xz, odd, rlat, rlon) {
         Err((loc, msg)) => r.violation(&format!("C05:panic:{}", short_loc(&loc)), format!("{fam} decode panicked: {}", msg_class(&msg)), rp),
@@ -169,6 +211,10 @@ struct Stats {
     far_some: u64,
     edge_skipped: u64,
     tr: Vec<f64>,
+    /// a track being flown, per format: (lat, lon, dlat per report, dlon per report, reports left)
+    track: [Option<(f64, f64, f64, f64, u32)>; 2],
+    /// the report decoded just before on the same track (for the witness)
+    prev: [Option<(u32, u32, bool, f64, f64)>; 2],
 }
 
 fn far_reference(r: &mut Report, rng: &mut Rng, surface: bool, st: &mut Stats) {
@@ -226,7 +272,7 @@ fn far_reference(r: &mut Report, rng: &mut Rng, surface: bool, st: &mut Stats) {
 }
 
 pub fn run(a: &Args, r: &mut Report) {
-    r.rule = "in range: true point -> independent encoder (one parity) -> real *_position_with_reference with the reference displaced by a random bearing and <= 0.95 x range (180 NM / 45 NM) -> within 10 m; any reference: arbitrary CPR counts with references incl. +-0, subnormal, 1e3..1e300, zone edges, poles, +-180 -> absent, or within half a zone of the reference and |lat| <= 90. distinct = distinct (cpr, reference) cases with a correct verdict One in-range case in 16 starts from a reference with round coordinates (exactly +-0 in one or both coordinates, whole and half degrees, zone corners, poles, -180) and places the aircraft in range of it. One message in four carries position fields already filled in by an earlier decode against a reference on the other side of the globe: the result may depend on the CPR counts and the reference only.".into();
+    r.rule = "in range: true point -> independent encoder (one parity) -> real *_position_with_reference with the reference displaced by a random bearing and <= 0.95 x range (180 NM / 45 NM) -> within 10 m; any reference: arbitrary CPR counts with references incl. +-0, subnormal, 1e3..1e300, zone edges, poles, +-180 -> absent, or within half a zone of the reference and |lat| <= 90. distinct = distinct (cpr, reference) cases with a correct verdict One in-range case in ten continues a track: 6-24 consecutive truths 3-60 m apart flown across an NL transition latitude or a latitude-zone edge (consecutive decodes on one thread). One in-range case in 16 starts from a reference with round coordinates (exactly +-0 in one or both coordinates, whole and half degrees, zone corners, poles, -180) and places the aircraft in range of it. One message in four carries position fields already filled in by an earlier decode against a reference on the other side of the globe: the result may depend on the CPR counts and the reference only.".into();
     r.assumptions.push("in-range additionally requires the reference to be within 0.95 x half a zone in each coordinate (only active near the poles where a zone is narrower than the nominal range)".into());
     let mut st = Stats { tr: geo::transitions(), ..Default::default() };
     let mut rng = Rng::new(a.seed, a.shard, "C05");
@@ -234,6 +280,10 @@ pub fn run(a: &Args, r: &mut Report) {
         let v: serde_json::Value = serde_json::from_str(&std::fs::read_to_string(p).unwrap()).unwrap();
         let rp = &v["replay"];
         let (s, odd) = (rp["surface"].as_bool().unwrap(), rp["odd"].as_bool().unwrap());
+        if let Some(pv) = rp.get("previous") {
+            // the report of the same track decoded just before
+            let _ = decode(s, pv["cpr"][0].as_u64().unwrap() as u32, pv["cpr"][1].as_u64().unwrap() as u32, pv["odd"].as_bool().unwrap(), pv["reference"][0].as_f64().unwrap(), pv["reference"][1].as_f64().unwrap());
+        }
         let res = decode(s, rp["cpr"][0].as_u64().unwrap() as u32, rp["cpr"][1].as_u64().unwrap() as u32, odd, rp["reference"][0].as_f64().unwrap(), rp["reference"][1].as_f64().unwrap());
         r.evaluations += 1;
         r.extra.insert("replay_result".into(), json!(format!("{:?}", res)));
@@ -266,6 +316,6 @@ pub fn run(a: &Args, r: &mut Report) {
     r.class_n("any-reference:none", st.far_none);
     r.class_n("any-reference:some-within-half-zone", st.far_some);
     r.max("error_m", st.max_err);
-    r.extra.insert("mandatory".into(), json!(["in-range-ok:airborne:even", "in-range-ok:airborne:odd", "in-range-ok:surface:even", "in-range-ok:surface:odd", "any-reference:some-within-half-zone", "in-range:cpr-counts-both-zero(zone corner)", "in-range:special-reference(round coordinates)", "in-range:reference-exactly-on-the-origin"]));
+    r.extra.insert("mandatory".into(), json!(["in-range-ok:airborne:even", "in-range-ok:airborne:odd", "in-range-ok:surface:even", "in-range-ok:surface:odd", "any-reference:some-within-half-zone", "in-range:cpr-counts-both-zero(zone corner)", "in-range:special-reference(round coordinates)", "in-range:reference-exactly-on-the-origin", "in-range:consecutive-reports-of-a-track-across-a-transition"]));
     r.sample(json!({"kind": "in-range", "truth": [48.1, 11.5], "reference_offset_nm": 171.0, "format": "airborne"}));
 }
